@@ -94,6 +94,9 @@ class Engine(Interp, ExprMixin, StmtMixin, CallMixin, MethodMixin):
                 p.yields = VBox('list', z3.Empty(self.zs.zsort(api.Seq(c.yields))), c.yields)
                 fr.extra['__yield__'] = p.yields
             p.gseq_decl = dict(getattr(c, 'ghost_seqs', None) or {})
+            clash = set(p.gseq_decl) & ({a.arg for a in fs.node.args.args + fs.node.args.kwonlyargs} | {n.id for n in ast.walk(fs.node) if isinstance(n, ast.Name)})
+            if clash:
+                raise Unsupported(f'ghost sequence(s) {sorted(clash)} have the name of a variable of the function: the ghost would shadow it')
             p.gseq = {g: z3.Empty(z3.SeqSort(self.zs.zsort(S_))) for g, (_e, _i, S_) in p.gseq_decl.items()}
             live = dict(env)
             entry = {k: self.snapshot(v) for k, v in env.items()}
@@ -238,11 +241,49 @@ class Engine(Interp, ExprMixin, StmtMixin, CallMixin, MethodMixin):
             env[v] = val
         f2 = Frame(None, env, fr.module, None, None)
         f2.extra = dict(fr.extra)
-        pre = [self.ev_text(t, f2) for t in lem.requires]
-        goal = self.ev_text(lem.goal, f2)
+        # the lemma's own variables win over ghost sequences of the same name (a ghost sequence used to shadow them: the instance
+        # was then a statement about the EMPTY sequence — useless, and it made the solver answer `sat` with a bogus model)
+        saved_gs = getattr(self.path, 'gseq', None)
+        if saved_gs:
+            self.path.gseq = {k_: v_ for k_, v_ in saved_gs.items() if k_ not in lem.vars}
+        try:
+            pre = [self.ev_text(t, f2) for t in lem.requires]
+            goal = self.ev_text(lem.goal, f2)
+        finally:
+            if saved_gs is not None:
+                self.path.gseq = saved_gs
         body = self.lor(self.lnot(self.land(*pre)), goal)
         if qvars and not isinstance(body, bool):
-            return z3.ForAll(qvars, body)
+            # a trigger helps the solvers (and keeps MBQI from answering `sat` with a candidate model that breaks the recursive
+            # definitions): the left-hand side of an equational goal, when it mentions every quantified variable
+            pats = []
+            if (z3.is_expr(goal) and z3.is_eq(goal) and goal.num_args() == 2 and z3.is_app(goal.arg(0)) and goal.arg(0).num_args() > 0
+                    and goal.arg(0).decl().kind() in (z3.Z3_OP_UNINTERPRETED, getattr(z3, 'Z3_OP_RECURSIVE', -1))):
+                lhs = goal.arg(0)
+                names_ = {c_.decl().name() for c_ in free_consts([lhs])}
+                if all(q_.decl().name() in names_ for q_ in qvars):
+                    pats = [lhs]
+            if not pats and z3.is_expr(goal):
+                # otherwise: the first application of a spec function in the goal that mentions every quantified variable
+                stack_ = [goal]
+                while stack_ and not pats:
+                    t_ = stack_.pop(0)
+                    if z3.is_quantifier(t_):
+                        continue
+                    if z3.is_app(t_) and t_.num_args() > 0 and t_.decl().kind() in (z3.Z3_OP_UNINTERPRETED, getattr(z3, 'Z3_OP_RECURSIVE', -1)):
+                        names_ = {c_.decl().name() for c_ in free_consts([t_])}
+                        if all(q_.decl().name() in names_ for q_ in qvars):
+                            pats = [t_]
+                            break
+                    stack_.extend(t_.children())
+            if pats:
+                # remembered for oblige(): instantiated by matching the trigger against the ground terms of each obligation
+                self.qlemmas = getattr(self, 'qlemmas', [])
+                self.qlemmas.append((list(qvars), body, pats[0]))
+            try:
+                return z3.ForAll(qvars, body, patterns=pats) if pats else z3.ForAll(qvars, body)
+            except z3.Z3Exception:
+                return z3.ForAll(qvars, body)
         return body
 
     def ev_text_value(self, txt, fr):
@@ -449,6 +490,70 @@ def _has_quant(t):
     return False
 
 
+def seq_simplify(t, cache=None):
+    """equivalence-preserving rewriting of sequence terms built by appending (ghost sequences, yields): the solvers are slow on
+    Nth / Length over Concat, fast on the rewritten form (uninterpreted Nth of the base sequences + linear arithmetic).
+      Length(Concat(p, q)) = Length(p) + Length(q), Length(Unit(x)) = 1, Length(Empty) = 0
+      Nth(Concat(p, Unit(x)), k) = If(0 <= k < Length(p), Nth(p, k), If(k == Length(p), x, <the term itself>))
+      Concat(p, Unit(x)) == Concat(q, Unit(y))  iff  p == q and x == y
+    Quantified sub-formulas are left as they are."""
+    if cache is None:
+        cache = {}
+
+    def tail_unit(c):
+        # c = Concat(..., Unit(x)) -> (prefix term, x)
+        if z3.is_app(c) and c.decl().kind() == z3.Z3_OP_SEQ_CONCAT and c.num_args() >= 2:
+            last = c.arg(c.num_args() - 1)
+            if z3.is_app(last) and last.decl().kind() == z3.Z3_OP_SEQ_UNIT:
+                pre = c.arg(0) if c.num_args() == 2 else z3.Concat(*[c.arg(i) for i in range(c.num_args() - 1)])
+                return pre, last.arg(0)
+        return None
+
+    def length(x):
+        if z3.is_app(x):
+            k = x.decl().kind()
+            if k == z3.Z3_OP_SEQ_CONCAT:
+                return z3.Sum([length(c) for c in x.children()])
+            if k == z3.Z3_OP_SEQ_UNIT:
+                return z3.IntVal(1)
+            if k == z3.Z3_OP_SEQ_EMPTY:
+                return z3.IntVal(0)
+        return z3.Length(x)
+
+    def nth(sq, k, orig):
+        tu = tail_unit(sq)
+        if tu is None:
+            return orig if orig is not None else sq[k]
+        pre, x = tu
+        lp = length(pre)
+        return z3.If(z3.And(0 <= k, k < lp), nth(pre, k, None), z3.If(k == lp, x, orig if orig is not None else sq[k]))
+
+    def rw(t):
+        i = t.get_id()
+        if i in cache:
+            return cache[i]
+        if z3.is_quantifier(t) or not z3.is_app(t) or t.num_args() == 0:
+            cache[i] = t
+            return t
+        ch = [rw(c) for c in t.children()]
+        kind = t.decl().kind()
+        if kind == z3.Z3_OP_SEQ_LENGTH and not z3.is_string(ch[0]):
+            r = length(ch[0])
+        elif kind == z3.Z3_OP_SEQ_NTH and not z3.is_string(ch[0]):
+            r = nth(ch[0], ch[1], ch[0][ch[1]])
+        elif kind == z3.Z3_OP_EQ and isinstance(ch[0].sort(), z3.SeqSortRef) and not z3.is_string(ch[0]) and tail_unit(ch[0]) and tail_unit(ch[1]):
+            (p1, x1), (p2, x2) = tail_unit(ch[0]), tail_unit(ch[1])
+            r = z3.And(rw(p1 == p2), x1 == x2)
+        else:
+            try:
+                r = t.decl()(*ch) if any(a.get_id() != b.get_id() for a, b in zip(ch, t.children())) else t
+            except Exception:
+                r = t
+        cache[i] = r
+        return r
+    return rw(t)
+
+
 def discharge(o: Obligation, second=False, want_model=True):
     rec = _discharge(o, second, want_model)
     if rec['status'] == 'unsat':
@@ -471,6 +576,23 @@ def _discharge(o: Obligation, second=False, want_model=True):
     """portfolio: z3 5.1 API (short) -> z3 4.8.12 CLI -> cvc5 CLI -> z3 5.1 API (long).
     -> dict(status=unsat|sat|unknown, backend, time_s, model)"""
     t0 = time.time()
+    # step 0: without the quantified assumptions (sound for `unsat`: fewer assumptions).  Goals are skolemised and the quantified
+    # invariants / lemma instances are already instantiated at the skolem constants and at the matching ground terms, so the
+    # quantifier-free part usually suffices — and the solvers decide it in milliseconds where the full VC takes cvc5 many seconds
+    if not second and any(z3.is_quantifier(a) or _has_quant(a) for a in o.pc):
+        s0 = z3.Solver()
+        s0.set('timeout', 4 * Z3_FAST_MS)
+        cache_ = {}
+        for a in o.pc:
+            if not (z3.is_quantifier(a) or _has_quant(a)):
+                s0.add(seq_simplify(a, cache_))
+        s0.add(z3.Not(seq_simplify(o.goal, cache_) if not _has_quant(o.goal) else o.goal))
+        try:
+            r0 = s0.check()
+        except z3.Z3Exception:
+            r0 = z3.unknown
+        if r0 == z3.unsat:
+            return {'status': 'unsat', 'backend': 'z3-' + z3.get_version_string() + ' (quantifier-free part of the assumptions)', 'time_s': round(time.time() - t0, 4), 'model': None}
     s, r = _z3api(o, Z3_FAST_MS)
     rec = {'status': str(r), 'backend': 'z3-' + z3.get_version_string(), 'time_s': round(time.time() - t0, 4), 'model': None}
     if r == z3.sat:
